@@ -290,6 +290,16 @@ Next ==
 
 Spec == Init /\ [][Next]_vars
 
+(* the dependency sub-protocol, explored deeper on its own (GEN_DataStruct_deps.cfg): attributes are added, derived ones
+   defined in any order, the list is reordered, and attributes are removed - removal must be transitive whatever the
+   storage order of the dependants *)
+NextDeps ==
+    \/ Attach
+    \/ \E n \in Main : AddMain(n)
+    \/ \E n \in Derived : AddDerived(n)
+    \/ \E n \in Main \cup Derived : Remove(n)
+    \/ \E h \in {"rotate", "reverse"} : Reorder(h)
+
 -----------------------------------------------------------------------------------------
 (* structural clauses of C17 / C14 on the requirement itself *)
 Kind(k) == SelectSeq(comps, LAMBDA c : c.k = k)
